@@ -513,6 +513,9 @@ func runScan(spec *RunSpec, corrupt bool, sb *sandbox, after func(ext, p string)
 						st, obs.Panic, fault = h.origStack, h.origPanic, h.origFault
 					}
 					obs.PanicExt = h.lastExt
+					if h.origPanic == "" && h.cur == nil {
+						obs.PanicExt = "engine" // not inside an Extract call: the walk, the result handling, the sort
+					}
 					if h.curReq != "" {
 						obs.PanicExt = h.curReq // it happened in this extractor's FileRequired
 					}
